@@ -59,3 +59,12 @@ META["C09"] = _m("sched", "DESIGN.md section 4, C09", "property-based testing: g
     "Exploration of message-level interleavings; two listed findings (streamed reader / multi-write WriterTo messages) are excluded from the concurrent mix by construction and re-checked by their witness cases; search, not proof.", _SCHED_NOTE)
 META["C18"] = _m("sched", "DESIGN.md section 4, C18", "property-based testing: generated schedules with stalled senders, cancelled/live contexts and Close; exact enabledness oracle from state read while nothing runs; terminal probe of blocked writers",
     "Exploration of full-queue behaviour in both modes: outcomes are judged against the queue/context state at the instant of the enqueue decision; blocking is verified by forcing a parked writer on and finding it in the enqueue select; search, not proof.", _SCHED_NOTE)
+
+ENGINES += [{"name": "e3model", "path": "harness/props/e3_model_test.go", "serves_properties": ["C03", "C07"],
+     "kind_free_text": "pipeline reference model (slice + index arithmetic, Go panics for exceptions) and 64 generated handler types with genuine method sets"}]
+META["C03"] = _m("e3model", "DESIGN.md section 4, C03", "property-based testing: generated build programs and events against an independent slice model (differential), incl. negative cases",
+    "Model-based random testing of pipeline construction and event routing through every entry point, with context-identity checks; search, not proof.", "Trusts the slice model (written from the statement and context.go's documented traversal rules) and the trace recorder.")
+META["C07"] = _m("e3model", "DESIGN.md section 4, C07", "fault enumeration (720 small-pipeline fault points) + property-based generation of panic sites, exception-handler shapes and transport fault plans; differential against the pipeline model",
+    "Exhaustive enumeration of the fault space for pipelines of at most three handlers plus random sampling of larger programs, with containment assertions (no escape, no wedge, process alive) and model trace equality.", "Trusts the pipeline model and a 15 s bound for 'the call never returned'.")
+META["C13"] = _m("mock", "DESIGN.md section 4, C13", "property-based testing: generated listener/connect/accept/shutdown histories with a gated executor and mock transport factory; stuck-state ledger oracle",
+    "Random exploration of start-up/shutdown overlaps where the harness decides when each executor action runs; the end state is judged when no goroutine can run any more; search, not proof.", "Trusts the goroutine tracker (running vs parked in a mock) and the mock factory/acceptor.")
